@@ -31,8 +31,10 @@ disagrees with the XSD reference is reported as a VIOLATION):
   re-block-specials         \\p{IsSpecials}: the replacement text is cut after 19 bytes
   re-block-after-backslash  after an escaped backslash directly before a bracket or a block, the bracket counter of the
                             block rewrite is off by one: a later block is written with / without brackets wrongly
-  re-match-limit            pcre2_match() gives up (match limit) on nested quantifiers: the value is rejected with an
-                            internal error whatever the XSD answer is
+  re-match-limit            pcre2_match() gives up (match limit) on nested quantifiers over possibly empty groups: a string that
+                            is not in the language is refused with an internal error (LY_ESYS) instead of "no match"
+  re-match-limit-member     the same limit is exhausted before the one way a string DOES match is found, e.g. (a?){24}a{24} on 24 a:
+                            a value of the language is refused with an internal error
   re-dot-cr                 '.' matches CR (XSD: [^\\n\\r])
   re-s-unicode              \\s matches VT, FF, NEL, NBSP ... (PCRE2_UCP), XSD: only space, TAB, LF, CR
 Fixed and no longer expected (regression cases are kept in every tier): re-escaped-anchor (97840a6), re-block-index and
@@ -359,6 +361,8 @@ WITNESSES = [
     ("\\\\[a]\\p{IsGreek}", "\\a\u03b1"),    # re-block-after-backslash
     (".", "\r"),                            # re-dot-cr
     ("\\s", "\u00a0"),                      # re-s-unicode
+    ("((){0,2}|:){10,12}:{0}", "::("),      # re-match-limit
+    ("(a?){24}a{24}", "a" * 24),            # re-match-limit-member
 ]
 
 
@@ -579,13 +583,22 @@ class RewriteUB:
     kinds = ["asan"]
     quick_sanitize = True
 
+    MAX_REPORTED = 3            # every crash is the same defect: the first few are reported with their input
+
+    def __init__(self):
+        self.reported = 0
+
     def gen(self, rng, tier, scale=1.0):
-        n = int((20000 if tier == "thorough" else 400) * scale)
+        n = int((20000 if tier == "thorough" else 120) * scale)
         return ["rewrite\t" + hexs(p) for p in UB_PATTERNS + [ub_like(rng) for _ in range(n)]]
 
     def judge(self, line, out):
         if out.startswith("CRASH") or out.startswith("TIMEOUT"):
-            return ("re-block-oob", "pattern %r: %s" % (unhex(line.split("\t")[1]).decode("utf-8", "replace"), out))
+            self.reported += 1
+            if self.reported > self.MAX_REPORTED:
+                return None
+            return ("re-block-oob", "pattern %r: %s (at most %d failing inputs of this oracle are reported)"
+                    % (unhex(line.split("\t")[1]).decode("utf-8", "replace"), out, self.MAX_REPORTED))
         return None
 
 
@@ -681,7 +694,12 @@ class Match(_Regex):
                 s = unhex(h).decode("utf-8", "replace")
                 if "X" in mi or "?" in mi:
                     return (None, "pattern %r string %r: outside the modelled XSD subset (generator or parser defect)" % (pat, s))
-                tag = "re-match-limit" if "L" in oi else classify(pat, s)
+                if "L" in oi:
+                    # the matcher gave up: two listed findings, by what XSD says (no match: the value is refused either way,
+                    # with the wrong error; match: a value of the language is refused)
+                    tag = {"0 0": "re-match-limit", "1 1": "re-match-limit-member"}.get(mi) if oi == "L L" else None
+                else:
+                    tag = classify(pat, s)
                 what = "XSD says %s, ly_pattern_match/lyd_value_validate say %s" % (mi, oi)
                 if oi[:1] != oi[-1:] and "L" not in oi:
                     what += " (the two entry points disagree)"
@@ -731,6 +749,10 @@ class EntryPoints:
     driver = None                 # run() drives both the white-box driver and the yangre process
     kinds = ["rel"]
     YANGRE_SHARE = 0.25           # share of the (pattern, string) pairs that are also given to yangre (one process each)
+    MAX_REPORTED = 5              # failing inputs reported per run
+
+    def __init__(self):
+        self.reported = 0
 
     def n(self, tier, quick, thorough, scale=1.0):
         return max(1, int((thorough if tier == "thorough" else quick) * scale))
@@ -824,9 +846,16 @@ class EntryPoints:
             a = ans.split(" ")
             s = unhex(f[2 + i]).decode("utf-8", "replace") if 2 + i < len(f) else "?"
             # V = the string or the pattern cannot be stored in a YANG string leaf (re-match() cannot be asked),
-            # - = yangre was not asked; L = the matcher gave up: every entry point must then refuse the value
-            vals = [x for x in a if x not in ("V", "-")]
-            norm = set("0" if x == "L" else x for x in vals)
-            if len(a) < 3 or len(norm) > 1:
-                return (None, "pattern %r string %r: ly_pattern_match / lyd_value_validate / re-match() / yangre answer %s" % (pat, s, ans))
+            # - = yangre was not asked; L = the matcher gave up (yangre then exits with 1 like for a rejected pattern)
+            lib = [x for x in a[:3] if x != "V"]
+            y = a[3] if len(a) > 3 else "-"
+            ok = len(a) >= 3 and len(set(lib)) == 1
+            if ok and y != "-":
+                ok = (y == lib[0]) or (lib[0] == "L" and y == "E")
+            if not ok:
+                self.reported += 1
+                if self.reported > self.MAX_REPORTED:
+                    return None
+                return (None, "pattern %r string %r: ly_pattern_match / lyd_value_validate / re-match() / yangre answer %s "
+                              "(at most %d failing inputs of this oracle are reported)" % (pat, s, ans, self.MAX_REPORTED))
         return None
